@@ -5,10 +5,13 @@
    initialiser, every struct layout and every enum value.  The comparison is `Alpha.pair`; the theorems say what a
    successful comparison means: IR2 is IR1 with the local variables renamed one-to-one, nothing else may differ — so
    nothing the source computes is dropped, reordered, regrouped or given another operator, conversion or literal.
-   Assumptions, not theorems: the front end's reading of the emitted text is HLSL's reading of it (every conversion
-   is explicit in that text), and what a function computes does not depend on the identity of its VariableIds. *)
-From Coq Require Import List NArith Bool String.
-From RV Require Import Alpha AlphaProofs.
+   `C01_same_behaviour` then says what that means for behaviour: under the evaluator of model/Sem.v the two functions
+   return the same value, copy the same values back and have the same effect on everything that is not a local, for
+   every interpretation of the words the comparison demands to be identical.
+   Assumption, not a theorem: the front end's reading of the emitted text is HLSL's reading of it (every conversion
+   is explicit in that text). *)
+From Coq Require Import List NArith ZArith Bool String.
+From RV Require Import Wire Alpha AlphaProofs Sem SemProofs.
 Import ListNotations.
 Local Open Scope string_scope.
 
@@ -35,6 +38,58 @@ Qed.
 Theorem C01_comparison_is_reflexive : forall l, exists r, pair [] 0 l l = Same r.
 Proof. intros l. apply pair_reflexive; [apply bij_nil | intros a b H; discriminate]. Qed.
 
+(* what a successful comparison means for what the functions compute.  `enc_func` is the encoding harness/src/sdump.rs
+   writes (every function dump of every run is decoded and re-encoded by the extracted checker: the hypothesis
+   `l1 = enc_func f1` is checked, not assumed); `run` is the evaluator of model/Sem.v, in which a local variable is a
+   cell addressed by its VariableId (reads, writes through member / swizzle / subscript paths, compound assignment,
+   increments, copy-in / copy-out calls, sequencing, conditionals, loops with break / continue, return).
+   If the dump of IR1 is the encoding of f1 and the comparison with the dump of IR2 succeeds, then the dump of IR2 is
+   the encoding of a function that returns the same value, copies the same values back through its out / inout
+   parameters and leaves everything that is not a local in the same state - for every fuel, every argument list,
+   every outside state and every interpretation I of the operator, literal, conversion, accessor, callee and global
+   words (those words are compared literally, so both functions use the same ones). *)
+Theorem C01_same_behaviour :
+  forall (V G : Type) (I : interp V G) (f1 : func) (l2 : list tok) (r : corr),
+    pair [] 0 (enc_func f1) l2 = Same r ->
+    l2 = enc_func (rn_func r f1) /\
+    forall fuel args g, run I fuel f1 args g = run I fuel (rn_func r f1) args g.
+Proof. intros V G I. exact (pair_same_behaviour I). Qed.
+
+(* non-vacuity of the evaluator: `int f(int p, inout int q) { int x = p; x += 1; q = x * 2; while (x < 10) { x++; } return x + q; }`
+   over the integers: f(5, q) returns 10 + 12 and copies 12 back; the same function under other ids is accepted by
+   the comparison and computes the same *)
+Definition zi : interp Z unit := {|
+  leaf := fun l _ => match l with ["Lit"; "ci"; n] => parse_Z n | _ => None end;
+  gget := fun _ _ => None; gput := fun _ _ _ => None;
+  truth := fun v => Some (negb (Z.eqb v 0));
+  acc_get := fun _ _ => None; acc_put := fun _ _ _ => None; idx_get := fun _ _ => None; idx_put := fun _ _ _ => None;
+  call := fun _ _ _ _ => None; ctor := fun _ _ _ => None;
+  op := fun name vs =>
+    match vs with
+    | [a; b] => if String.eqb name "Add" then Some (a + b)%Z else if String.eqb name "Multiply" then Some (a * b)%Z
+                else if String.eqb name "LessThan" then Some (if Z.ltb a b then 1 else 0)%Z else None
+    | [a] => if String.eqb name "PostfixIncrement" then Some (a + 1)%Z else None
+    | _ => None
+    end;
+  dflt := fun _ => None; agg := fun _ _ => None |}.
+
+Definition lit (n : string) : expr := ELeaf ["Lit"; "ci"; n].
+Definition ex_f (p q x : N) : func := {|
+  f_ret := ["ts"; "i"];
+  f_params := [(p, "0", ["ts"; "i"], None); (q, "2", ["ts"; "i"], None)];
+  f_body := [ SVar (x, ["Local"; "ts"; "i"], IExp (ELoc p));
+              SExpr (EOp "SumAssignment" [ELoc x; lit "1"]);
+              SExpr (EOp "Assignment" [ELoc q; EOp "Multiply" [ELoc x; lit "2"]]);
+              SWhile (EOp "LessThan" [ELoc x; lit "10"]) [SExpr (EOp "PostfixIncrement" [ELoc x])];
+              SRet (EOp "Add" [ELoc x; ELoc q]) ] |}.
+
+Example C01_evaluator_example :
+  run zi 20 (ex_f 7 8 9) [Some 5%Z; Some 0%Z] tt = Some (Some 22%Z, [None; Some 12%Z], tt) /\
+  pair [] 0 (enc_func (ex_f 7 8 9)) (enc_func (ex_f 1 2 3)) = Same [(9, 3); (8, 2); (7, 1)]%N /\
+  rn_func [(9, 3); (8, 2); (7, 1)]%N (ex_f 7 8 9) = ex_f 1 2 3 /\
+  run zi 20 (ex_f 1 2 3) [Some 5%Z; Some 0%Z] tt = Some (Some 22%Z, [None; Some 12%Z], tt).
+Proof. vm_compute. repeat split. Qed.
+
 (* ---- non-vacuity: `int x = p; return x + 1;` against the same with other ids; against `x - 1`; against a swapped use ---- *)
 Definition ex_a := [W "F"; Id 7; W "SVar"; Id 9; W "IE"; W "Loc"; Id 7; W "SRet"; W "Op"; W "Add"; W "Loc"; Id 9; W "Lit"; W "ci"; W "1"].
 Definition ex_b := [W "F"; Id 2; W "SVar"; Id 3; W "IE"; W "Loc"; Id 2; W "SRet"; W "Op"; W "Add"; W "Loc"; Id 3; W "Lit"; W "ci"; W "1"].
@@ -50,3 +105,4 @@ Proof. vm_compute. repeat split. Qed.
 Print Assumptions C01_equal_up_to_local_names.
 Print Assumptions C01_words_identical.
 Print Assumptions C01_comparison_is_reflexive.
+Print Assumptions C01_same_behaviour.
